@@ -671,9 +671,11 @@ def _datatypes():
         'struct': StructOf(optional=['b', 'c'], a=IntRange(0, 9), b=StringType(0, 4), c=FloatRange()),
         'arrstruct': ArrayOf(StructOf(optional=['q'], p=BoolType(), q=IntRange(0, 9)), 0, 3),
         'tupnest': TupleOf(EnumType('t', x=1, y=2), ArrayOf(FloatRange(), 0, 2)),
+        'bigblob': BLOBType(0, 200000), 'bigstring': StringType(0, 200000), 'bigarray': ArrayOf(IntRange(0, 9), 0, 100000),
     }
 
 
+BIGKINDS = ['bigblob', 'bigstring', 'bigarray']     # frames of tens of kB
 KINDS = ['double', 'int', 'scaled', 'bool', 'enum', 'string', 'blob', 'array', 'tuple', 'struct', 'arrstruct', 'tupnest']
 SCALE = {'scaled': 0.01}
 ENUMS = {'enum': {'off': 0, 'low': 1, 'high': 5}, 'tupnest.0': {'x': 1, 'y': 2}}
@@ -688,6 +690,16 @@ def _gen_value(kind, rnd, partial=True, path=None):
 
     def atom(txt, conc):
         return {'j': 'atom', 'v': txt}, conc
+    if kind in BIGKINDS:     # compared by length and digest
+        n = rnd.randint(20000, 60000)
+        raw = bytes(rnd.getrandbits(8) for _ in range(n // 8)) * 8
+        if kind == 'bigblob':
+            return atom(_digest('x', raw), raw)
+        if kind == 'bigstring':
+            txt = ''.join(chr(32 + b % 95) for b in raw)
+            return atom(_digest('t', txt.encode()), txt)
+        digits = [b % 10 for b in raw]
+        return atom(_digest('a', bytes(digits)), digits)
     if kind == 'double':
         v = rnd.choice([0.0, 1.5, -2.25, 1000.0, -1000.0, 0.1, 1e-9, round(rnd.uniform(-1000, 1000), rnd.randint(0, 6))])
         if TEXTSAFE:
@@ -749,10 +761,21 @@ def _gen_value(kind, rnd, partial=True, path=None):
     raise MachineryError('unknown kind ' + kind)
 
 
+def _digest(tag, raw):
+    return '%s:%d:%s' % (tag, len(raw), hashlib.sha1(raw).hexdigest()[:16])
+
+
 def a_tree(kind, v, path=None):
     """python value found at the driver / in the client cache -> abstract tree (alpha), by the declared kind"""
     path = path or kind
     try:
+        if kind == 'bigblob':
+            return {'j': 'atom', 'v': _digest('x', v) if isinstance(v, bytes) else '?%r' % type(v)}
+        if kind == 'bigstring':
+            return {'j': 'atom', 'v': _digest('t', v.encode()) if isinstance(v, str) else '?%r' % type(v)}
+        if kind == 'bigarray':
+            ok = isinstance(v, (tuple, list)) and all(isinstance(x, int) and not isinstance(x, bool) and 0 <= x <= 9 for x in v)
+            return {'j': 'atom', 'v': _digest('a', bytes(v)) if ok else '?%r' % type(v)}
         if kind in ('double', 'cdouble'):
             return {'j': 'atom', 'v': 'f:' + repr(v)} if isinstance(v, float) else {'j': 'atom', 'v': '?%r' % (v,)}
         if kind in ('int', 'digit'):
@@ -804,7 +827,7 @@ def _make_driver_class(without=()):
             raise x()
         return x
     attrs = {'enablePoll': False}
-    for name in PKINDS:
+    for name in PKINDS + BIGKINDS:
         kind = BASE.get(name, name)
         dt, dta, dtr = (_datatypes()[kind] for _ in range(3))
         attrs[name] = Parameter('parameter of kind ' + kind, dt, readonly=False, default=dt.default)
@@ -833,7 +856,7 @@ def _make_driver_class(without=()):
         c = mkcmd()
         attrs['write_' + name] = w
         attrs['read_' + name] = r
-        if 'c_' + name not in without:
+        if 'c_' + name not in without and name not in BIGKINDS:
             attrs['c_' + name] = Command(dta, result=dtr)(c)
 
     def c_noarg(self):
@@ -844,8 +867,68 @@ def _make_driver_class(without=()):
     return type('GenDriver', (Module,), attrs)
 
 
+def _make_aux_class():
+    """a second module of node 1: its updates are published by another thread while the driver module is busy
+    (updates of one module are serialised by the module's own updateLock)"""
+    from frappy.datatypes import IntRange
+    from frappy.modules import Module, Parameter
+    return type('GenAux', (Module,), {'enablePoll': False,
+                                      'int': Parameter('published concurrently', IntRange(-50, 50), readonly=False, default=0)})
+
+
 class _Srv:
     restart = shutdown = None
+
+
+class _Splitter:
+    """node-side test fixture: a large frame is handed to the real socket in two pieces (as the kernel does with a
+    full buffer) and the thread publishing updates gets its turn in between.  frappy's send_reply / send_lock stay
+    in charge of the mutual exclusion of frames on a connection."""
+    THRESHOLD = 8192
+
+    def __init__(self):
+        self.target = None                  # peer port of the connection to treat
+        self.in_gap = False
+        self.gap = threading.Event()        # first piece is out
+        self.intruded = threading.Event()   # another thread wrote to the same socket between the pieces
+        self.gaps = self.intrusions = 0
+
+    def arm(self, peerport):
+        self.gap.clear()
+        self.intruded.clear()
+        self.target = peerport
+
+    def disarm(self):
+        self.target = None
+
+
+class _SplitSocket:
+    def __init__(self, sock, splitter):
+        self._s, self._sp = sock, splitter
+        self._peer = sock.getpeername()[1]
+
+    def __getattr__(self, name):
+        return getattr(self._s, name)
+
+    def sendall(self, data):
+        sp = self._sp
+        if sp.target == self._peer:
+            if sp.in_gap:
+                sp.intrusions += 1
+                sp.intruded.set()
+            elif len(data) > sp.THRESHOLD:
+                half = len(data) // 2
+                sp.in_gap = True
+                try:
+                    self._s.sendall(data[:half])
+                    sp.gaps += 1
+                    sp.gap.set()
+                    sp.intruded.wait(0.15)  # a correct node keeps the other thread waiting for the connection's lock
+                    return self._s.sendall(data[half:])
+                finally:
+                    sp.in_gap = False
+                    sp.target = None
+        return self._s.sendall(data)
 
 
 class Node:
@@ -877,6 +960,13 @@ class Node:
         # accepted sockets inherit TCP_NODELAY: avoids 40 ms of delayed ACK per request (environment only)
         self.iface.socket.setsockopt(socket.IPPROTO_TCP, socket.TCP_NODELAY, 1)
         self.port = self.iface.server_address[1]
+        self.splitter = _Splitter()
+        accept = self.iface.get_request
+
+        def get_request():
+            sock, addr = accept()
+            return _SplitSocket(sock, self.splitter), addr
+        self.iface.get_request = get_request
         self.thread = threading.Thread(target=self.iface.serve_forever, kwargs={'poll_interval': 0.05}, daemon=True)
         self.thread.start()
 
@@ -964,14 +1054,14 @@ class _Rig:
     def readerror(cls, item):
         return cls.error(item.readerror)
 
-    def request(self, rec, fn, conv, received=None):
+    def request(self, rec, fn, conv, received=None, tries=3):
         """one request (repeated on time-outs); rec['cache'] = what the caller / the client cache ends up with"""
         path = rec['path']
         if self.slow.get(path):
             return None
         rec['ev'] = 'e2e'
         iserr = rec['op'] in ('readerr', 'writeerr')
-        res, e, rec['attempts'] = _attempt(fn, before=self.drv.rec.clear)
+        res, e, rec['attempts'] = _attempt(fn, before=self.drv.rec.clear, tries=tries)
         txt = None
         if e is None:
             try:
@@ -1015,7 +1105,8 @@ class _Rig:
 
 def _e2e_batch(arg):
     """one rig: node 1 (driver module), node 2 (proxy module in front of it), three clients"""
-    seed, n_per_kind, budget = arg
+    seed, n_per_kind, budget = arg[:3]
+    big_rounds = arg[3] if len(arg) > 3 else 1
     boot()
     import frappy.client
     import frappy.io
@@ -1027,7 +1118,9 @@ def _e2e_batch(arg):
     records = []
     notes = {}
     Drv = _make_driver_class()
-    n1 = Node('n1', {'drv': {'cls': Drv, 'description': 'generated driver'}})
+    n1 = Node('n1', {'drv': {'cls': Drv, 'description': 'generated driver'},
+                     'aux': {'cls': _make_aux_class(), 'description': 'publishes updates concurrently'}})
+    aux = n1.modules['aux']
     if n1.errors:
         raise MachineryError('generated node does not start: %r' % (n1.errors,))
     drv = n1.modules['drv']
@@ -1153,6 +1246,57 @@ def _e2e_batch(arg):
             ret_a, drv.script['c_noarg'] = _gen_value('int', rnd)
             rig.request({'op': 'do', 'kind': 'noarg', 'path': path, 'sent': none, 'returned': ret_a},
                         lambda: c.execCommand(mod, 'c_noarg'), lambda res: a_tree('int', res[0]), received=('c', 'noarg', None))
+        # -- large values (the frame leaves the node in pieces) while a thread of the node publishes updates of
+        #    another parameter on the same activated connection: directly, and on the proxy's connection to node 1
+        watch = {'direct_active': clients['direct_active'][0], 'proxy': pxclient}
+        errors, seen = [], {}
+        for name, tc in list(watch.items()) + [('client2', clients['proxy'][0])]:
+            tc.register_callback(None, handleError=lambda exc, name=name: errors.append(('%s: %r' % (name, exc))[:300]))
+        for name, tc in watch.items():
+            seen[name] = []
+            tc.register_callback(('aux', 'int'), updateEvent=lambda m, p, v, t, e, name=name:
+                                 seen[name].append(a_tree('int', v)['v'] if e is None else '?%r' % (e,)))
+        for k in range(big_rounds):
+            for kind in BIGKINDS:
+                for path in ('direct_active', 'proxy'):
+                    for op in ('bigwrite', 'bigread'):
+                        if op == 'bigread' and path == 'proxy':
+                            continue    # a proxy serves reads from its cache: nothing large on the wire to node 1
+                        c, mod = clients[path]
+                        tc = watch[path]
+                        if not rig.fence(path, tc):
+                            continue
+                        del errors[:]
+                        del seen[path][:]
+                        vals = [_gen_value('int', rnd) for _ in range(2)]
+                        sp = n1.splitter
+
+                        def announcer():
+                            sp.gap.wait(3)
+                            for _, v in vals:
+                                setattr(aux, 'int', v)
+                        th = threading.Thread(target=announcer, daemon=True)
+                        sp.arm(tc.io.connection.getsockname()[1])
+                        gaps = sp.gaps
+                        th.start()
+                        rec = {'op': op, 'kind': kind, 'path': path}
+                        if op == 'bigwrite':
+                            rec['sent'], sent_c = fresh(kind)
+                            rec['returned'], drv.script[kind] = fresh(kind)
+                            rig.request(rec, lambda: c.setParameter(mod, kind, sent_c), rig.item(kind), received=('w', kind, kind), tries=1)
+                        else:
+                            rec['returned'], drv.script[kind] = fresh(kind)
+                            rig.request(rec, lambda: c.readParameter(mod, kind), rig.item(kind), tries=1)
+                        th.join(8)
+                        sp.disarm()
+                        fenced = rig.fence(path, tc)
+                        item = tc.cache.get(('aux', 'int'))
+                        rec.update(nerrors=len(errors), errors=errors[:3], conc_sent=[a['v'] for a, _ in vals],
+                                   conc_seen=list(seen[path]), conc_last=vals[-1][0]['v'],
+                                   conc_cache=rig.item('int')(item)['v'] if item is not None else '?not cached',
+                                   split=sp.gaps > gaps, fenced=fenced)
+        notes['split_frames'] = n1.splitter.gaps
+        notes['intrusions'] = n1.splitter.intrusions
     finally:
         for c, _ in clients.values():
             try:
@@ -1209,7 +1353,7 @@ def _behaviours(chk, quick):
         chk.add_tlc(r)
         behs += _printed(r.out)
     # deeper behaviours sampled by TLC's simulator from the same generation spec
-    n, depth, scfg = (24, 10, 'Gen_ClientCache_sim_quick.cfg') if quick else (400, 14, 'Gen_ClientCache_sim_thorough.cfg')
+    n, depth, scfg = (16, 10, 'Gen_ClientCache_sim_quick.cfg') if quick else (400, 14, 'Gen_ClientCache_sim_thorough.cfg')
     rs = run_tlc('Gen_ClientCache', scfg, workers=1, timeout=900, simulate='num=%d' % n,
                  depth=depth + 1, seed=chk.seed + 1, deadlock=False)
     if rs.violated or rs.rc != 0:
@@ -1266,12 +1410,12 @@ def run(chk):
     n = 300 if quick else 4000
     traces = pool_map(_random_trace, [(chk.seed * 100003 + i, 40 if quick else 60) for i in range(n)])
     lap('random_traces')
-    nbatch, per_kind = (4, 8) if quick else (16, 50)
-    e2e = pool_map(_e2e_batch, [(chk.seed * 7919 + i, per_kind, 40 if quick else 500) for i in range(nbatch)])
+    nbatch, per_kind = (4, 6) if quick else (16, 50)
+    e2e = pool_map(_e2e_batch, [(chk.seed * 7919 + i, per_kind, 40 if quick else 500, 1 if quick else 3) for i in range(nbatch)])
     aborted = [n['aborted'] for _, n in e2e if n.get('aborted')]
     lap('end_to_end')
     records = [r for recs, _ in e2e for r in recs]
-    e2e_traces = [[{k: v for k, v in r.items() if k not in ('concrete', 'attempts', 'how')}] for r in records]   # one record = one trace
+    e2e_traces = [[{k: v for k, v in r.items() if k not in ('concrete', 'attempts', 'how', 'errors', 'split', 'fenced')}] for r in records]   # one record = one trace
     n0 = e2e[0][1] if e2e else {}
     if n0.get('proxy_class_error'):
         chk.violation({'module': 'E2E', 'site': 'proxy_class', 'clause': 'a command with a struct argument can be proxied'},
@@ -1310,6 +1454,10 @@ def run(chk):
                 ('readerr', 'direct'), ('readerr', 'proxy'), ('writeerr', 'direct'), ('writeerr', 'proxy')]
     missing = [(k, p, op) for k in PKINDS for op, p in required if (k, p, op) not in kinds_seen
                and not (n0.get('proxy_class_error') and (k, p, op) == ('struct', 'proxy', 'do'))]
+    chk.notes['split_frames'] = sum(n.get('split_frames', 0) for _, n in e2e)
+    chk.notes['frames_intruded'] = sum(n.get('intrusions', 0) for _, n in e2e)
+    if not chk.notes['split_frames'] and not chk.violations:
+        raise MachineryError('no large frame left a node in pieces: the concurrent-publishing exchanges are vacuous')
     if (missing or aborted) and not chk.violations:
         raise MachineryError('end-to-end cases missing (vacuous): %r %r' % (missing[:5], aborted[:1]))
     chk.sample({'trace_prefix': traces[0][:3]})
